@@ -2,6 +2,7 @@ use crate::runner::Ctx;
 
 pub mod c01;
 pub mod c03;
+pub mod c04;
 pub mod c05;
 pub mod c06;
 pub mod c07;
@@ -22,6 +23,7 @@ pub fn run(ctx: &Ctx) -> bool {
     match ctx.prop.as_str() {
         "C01" => c01::run(ctx),
         "C03" => c03::run(ctx),
+        "C04" => c04::run(ctx),
         "C05" => c05::run(ctx),
         "C06" => c06::run(ctx),
         "C07" => c07::run(ctx),
